@@ -1,9 +1,9 @@
 package schema
 
 import (
-	"strconv"
 	"fmt"
 	"math/rand"
+	"strconv"
 )
 
 type Gen struct {
